@@ -359,11 +359,205 @@ def SiblingCombines(rng):
   return Prog([T, U, V, P, Q, R]), ['P', 'Q', 'R'], ['fam_sibling_combines',
                                                       'fam_shared_local']
 
+def DupDisjuncts(rng):
+  """Alternatives of one disjunction that are equal, or equal up to the order
+  of their conjuncts: each alternative contributes its own derivations."""
+  x, y = Var('x'), Var('y')
+  P = Facts('P', RandRows(rng, 2, n=4, lo=0, hi=2))
+  K = Facts('K', [(0,), (1,), (1,)])
+  def A():
+    return Atom('P', [('col0', x), ('col1', y)])
+  def B():
+    return Atom('K', [('col0', x)])
+  Q = Pred('Q', [Rule([('col0', x, ''), ('col1', y, '')],
+                      [Or([[A(), B()], [B(), A()]])])])
+  R = Pred('R', [Rule([('col0', x, ''), ('col1', y, '')],
+                      [Or([[A(), B()], [A(), B()], [Atom('P', [('col0', y), ('col1', x)])]])])])
+  Sx = Pred('S', [Rule([('col0', x, ''), ('logica_value', Lit(N_(1)), 'Sum')],
+                       [Or([[B()], [B()]]), A()], True)])
+  return Prog([P, K, Q, R, Sx]), ['Q', 'R', 'S'], ['fam_dup_disjuncts']
+
+
+def ImplicationConj(rng):
+  """A => (B, C) written with the arrow: ~(A, ~(B, C)), with witnesses of A
+  that satisfy some but not all of the consequence."""
+  x, y = Var('x'), Var('y')
+  T = Facts('T', [(i,) for i in range(4)])
+  A = Facts('A', [(0, 0), (0, 1), (1, 1), (2, 2), (3, rng.randint(0, 2))])
+  B = Facts('B', [(0,), (1,)] + [(rng.randint(0, 2),)])
+  C = Facts('C', [(1,), (rng.randint(0, 2),)])
+  def Imp():
+    n = Neg([Atom('A', [('col0', x), ('col1', y)]),
+             Neg([Atom('B', [('col0', y)]), Atom('C', [('col0', y)])])])
+    n['form'] = 'implication'
+    return n
+  Q = Pred('Q', [Rule([('col0', x, '')], [Atom('T', [('col0', x)]), Imp()])])
+  Cn = Pred('Cn', [Rule([('logica_value', Lit(N_(1)), 'Sum')],
+                        [Atom('T', [('col0', x)]), Imp()], True)])
+  W = Pred('W', [Rule([('col0', x, ''), ('col1', Var('c'), '')],
+                      [Atom('T', [('col0', x)]),
+                       Unify(Var('c'), AggE('Sum', Var('z'),
+                                            [Atom('T', [('col0', Var('z'))]),
+                                             Cmp(Op('<=', Var('z'), x)),
+                                             Neg([Atom('A', [('col0', Var('z')), ('col1', y)]),
+                                                  Neg([Atom('B', [('col0', y)]),
+                                                       Cmp(Op('>', y, Lit(N_(0))))])])]))])])
+  W['rules'][0]['body'][1]['r']['body'][2]['form'] = 'implication'
+  return Prog([T, A, B, C, Q, Cn, W]), ['Q', 'Cn', 'W'], ['fam_implication_conj']
+
+
+def PartialCallInCombine(rng):
+  """A partial / multi-valued functional predicate called inside a negation
+  or an aggregating expression with arguments from the enclosing rule (or
+  constants): the call is a conjunct of the inner body, not of the outer."""
+  x = Var('x')
+  K = Facts('K', [(i,) for i in range(4)])
+  rows = [(0, 10), (1, 30), (1, 5), (3, rng.choice([10, 30]))]   # nothing for 2
+  F = Pred('F', [Rule([('col0', Lit(N_(a)), ''), ('logica_value', Lit(N_(b)), '')])
+                 for a, b in rows])
+  Rate = Pred('Rate', [Rule([('col0', Lit(S('usd')), ''), ('logica_value', Lit(N_(2)), '')]),
+                       Rule([('col0', Lit(S('chf')), ''), ('logica_value', Lit(N_(1)), '')]),
+                       Rule([('col0', Lit(S('chf')), ''), ('logica_value', Lit(N_(3)), '')])])
+  NotExp = Pred('NotExp', [Rule([('col0', x, '')],
+      [Atom('K', [('col0', x)]),
+       Neg([Cmp(Op('>', PCall('F', [('col0', x)]), Lit(N_(20))))])])])
+  Rev = Pred('Rev', [Rule([('col0', x, ''), ('col1', Var('r'), '')],
+      [Atom('K', [('col0', x)]),
+       Unify(Var('r'), AggE('Sum', Var('v'),
+                            [Unify(Var('v'), PCall('F', [('col0', x)]))]))])])
+  cur = rng.choice(['eur', 'usd', 'chf'])
+  Cheap = Pred('Cheap', [Rule([('col0', x, '')],
+      [Atom('K', [('col0', x)]),
+       Neg([Cmp(Op('>', x, PCall('Rate', [('col0', Lit(S(cur)))])))])])])
+  Tot = Pred('Tot', [Rule([('col0', x, ''), ('logica_value', Var('m'), 'Max')],
+      [Atom('K', [('col0', x)]),
+       Unify(Var('m'), AggE('Sum', Op('*', x, Var('q')),
+                            [Unify(Var('q'), PCall('Rate', [('col0', Lit(S(cur)))]))]))],
+      True)])
+  return (Prog([K, F, Rate, NotExp, Rev, Cheap, Tot]),
+          ['NotExp', 'Rev', 'Cheap', 'Tot'], ['fam_partial_call_in_combine'])
+
+
+def RepeatedInject(rng):
+  """One injectible predicate holding an aggregating expression / a negation,
+  used twice in a rule with different arguments."""
+  a, b, x, y = Var('a'), Var('b'), Var('x'), Var('y')
+  T = Facts('T', [(i,) for i in range(3)])
+  U = Facts('U', [(0, 1), (0, 2), (1, rng.randint(1, 4))] +
+            ([(2, 5)] if rng.random() < 0.3 else []))
+  Pair = Facts('Pair', [(0, 1), (1, 0), (0, 2), (2, 2)])
+  Num = Pred('Num', [Rule([('col0', x, ''), ('col1', Var('s'), '')],
+      [Atom('T', [('col0', x)]),
+       Unify(Var('s'), AggE('Sum', y, [Atom('U', [('col0', x), ('col1', y)])]))])])
+  Lone = Pred('Lone', [Rule([('col0', x, '')],
+      [Atom('T', [('col0', x)]), Neg([Atom('U', [('col0', x), ('col1', y)])])])])
+  Compare = Pred('Compare', [Rule(
+      [('col0', a, ''), ('col1', b, ''), ('na', Var('na'), ''), ('nb', Var('nb'), '')],
+      [Atom('Pair', [('col0', a), ('col1', b)]),
+       Atom('Num', [('col0', a), ('col1', Var('na'))]),
+       Atom('Num', [('col0', b), ('col1', Var('nb'))])])])
+  Both = Pred('Both', [Rule([('col0', a, ''), ('col1', b, '')],
+      [Atom('Pair', [('col0', a), ('col1', b)]),
+       Atom('Lone', [('col0', a)]), Atom('Lone', [('col0', b)])])])
+  Mixed = Pred('Mixed', [Rule([('col0', a, ''), ('col1', b, '')],
+      [Atom('Pair', [('col0', a), ('col1', b)]),
+       Atom('Lone', [('col0', b)]),
+       Neg([Atom('U', [('col0', a), ('col1', y)])])])])
+  return (Prog([T, U, Pair, Num, Lone, Compare, Both, Mixed]),
+          ['Compare', 'Both', 'Mixed'], ['fam_repeated_inject'])
+
+
+def MultiDisjConj(rng):
+  """Several disjunctive conjuncts in one body: the body is the product."""
+  x, y, z = Var('x'), Var('y'), Var('z')
+  A = Facts('A', RandRows(rng, 1, lo=0, hi=2))
+  B = Facts('B', RandRows(rng, 1, lo=0, hi=2))
+  C = Facts('C', RandRows(rng, 1, lo=0, hi=2))
+  D = Facts('D', RandRows(rng, 1, lo=0, hi=2))
+  def At(p, v):
+    return Atom(p, [('col0', v)])
+  P = Pred('P', [Rule([('col0', x, ''), ('col1', y, '')],
+                      [Or([[At('A', x)], [At('B', x)]]),
+                       Or([[At('C', y)], [At('D', y)]])])])
+  Q = Pred('Q', [Rule([('col0', x, ''), ('col1', y, ''), ('col2', z, '')],
+                      [Or([[At('A', x)], [At('B', x)]]),
+                       At('C', y),
+                       Or([[At('C', z), Cmp(Op('<', z, Lit(N_(2))))], [At('D', z)]]),
+                       Or([[Cmp(Op('==', x, y))], [Cmp(Op('<', x, z))]])])])
+  R = Pred('R', [Rule([('logica_value', Op('+', x, y), 'Sum')],
+                      [Or([[At('A', x)], [At('B', x)]]),
+                       Or([[At('C', y)], [At('D', y)]])], True)])
+  return Prog([A, B, C, D, P, Q, R]), ['P', 'Q', 'R'], ['fam_multi_disj_conj']
+
+
+def InExprRepeated(rng):
+  """`e in l` with a computed / constant / already bound left side and a list
+  (literal or a column) that repeats the matching value: one alternative per
+  element, wherever the inclusion stands in the body."""
+  x, it, i = Var('x'), Var('item'), Var('id')
+  T = Facts('T', RandRows(rng, 1, n=3, lo=0, hi=2))
+  L = Pred('L', [Rule([('col0', Lit(N_(1)), ''),
+                       ('col1', ListE([Lit(N_(2)), Lit(N_(2)), Lit(N_(1))]), '')]),
+                 Rule([('col0', Lit(N_(2)), ''),
+                       ('col1', ListE([Lit(N_(0)), Lit(N_(rng.randint(0, 2)))]), '')])])
+  Stock = Facts('Stock', [(2,), (0,)])
+  ByExpr = Pred('ByExpr', [Rule([('col0', x, '')],
+      [Atom('T', [('col0', x)]),
+       Inc(Op('+', x, Lit(N_(1))), ListE([Lit(N_(2)), Lit(N_(2)), Lit(N_(3))]))])])
+  Const = Pred('Const', [Rule([('col0', x, '')],
+      [Atom('T', [('col0', x)]),
+       Inc(Lit(N_(7)), ListE([Lit(N_(7)), Lit(N_(7)), Lit(N_(1))]))])])
+  FromData = Pred('FromData', [Rule([('col0', i, ''), ('col1', x, '')],
+      [Atom('T', [('col0', x)]), Atom('L', [('col0', i), ('col1', Var('l'))]),
+       Inc(Op('*', x, Lit(N_(2))), Var('l'))])])
+  Before = Pred('Before', [Rule([('col0', i, ''), ('col1', it, '')],
+      [Atom('L', [('col0', i), ('col1', Var('l'))]), Inc(it, Var('l')),
+       Atom('Stock', [('col0', it)])])])
+  After = Pred('After', [Rule([('col0', i, ''), ('col1', it, '')],
+      [Atom('L', [('col0', i), ('col1', Var('l'))]),
+       Atom('Stock', [('col0', it)]), Inc(it, Var('l'))])])
+  return (Prog([T, L, Stock, ByExpr, Const, FromData, Before, After]),
+          ['ByExpr', 'Const', 'FromData', 'Before', 'After'],
+          ['fam_in_expr_repeated'])
+
+
+def UnionNamedPositional(rng):
+  """Rules of one predicate with two positional and two or three named
+  arguments, the named ones listed in another order in later rules."""
+  x, y = Var('x'), Var('y')
+  E = Facts('E', RandRows(rng, 2, lo=0, hi=3))
+  def R(vals, order, body=()):
+    r = Rule([('col0', vals[0], ''), ('col1', vals[1], ''),
+              ('kind', vals[2], ''), ('toll', vals[3], '')] +
+             ([('zone', vals[4], '')] if len(vals) > 4 else []), body)
+    r['named_order'] = order
+    return r
+  Edge = Pred('Edge', [
+      R([Lit(N_(1)), Lit(N_(2)), Lit(S('road')), Lit(N_(0))], ['kind', 'toll']),
+      R([Lit(N_(3)), Lit(N_(4)), Lit(S('rail')), Lit(N_(7))], ['toll', 'kind']),
+      R([x, y, Lit(S('path')), Op('+', x, y)], ['toll', 'kind'],
+        [Atom('E', [('col0', x), ('col1', y)])])])
+  Z = Pred('Z', [
+      R([Lit(N_(1)), Lit(N_(2)), Lit(S('a')), Lit(N_(0)), Lit(S('n'))], ['kind', 'toll', 'zone']),
+      R([Lit(N_(3)), Lit(N_(4)), Lit(S('b')), Lit(N_(7)), Lit(S('s'))], ['zone', 'kind', 'toll']),
+      R([Lit(N_(5)), Lit(N_(6)), Lit(S('c')), Lit(N_(8)), Lit(S('w'))], ['toll', 'zone', 'kind'])])
+  Use = Pred('Use', [Rule([('col0', x, ''), ('col1', Var('k'), '')],
+      [Atom('Edge', [('col0', x), ('col1', y), ('kind', Var('k')), ('toll', Var('t'))]),
+       Cmp(Op('>', Var('t'), Lit(N_(0))))])])
+  return Prog([E, Edge, Z, Use]), ['Edge', 'Z', 'Use'], ['fam_union_named_positional']
+
 
 SEM_FAMILIES = [('if_chain', IfChain), ('repeated_call', RepeatedCall),
                 ('sibling_combines', SiblingCombines),
                 ('double_negation', DoubleNegation),
-                ('bound_in_repeated', BoundInRepeated)]
+                ('bound_in_repeated', BoundInRepeated),
+                ('dup_disjuncts', DupDisjuncts),
+                ('implication_conj', ImplicationConj),
+                ('partial_call_in_combine', PartialCallInCombine),
+                ('repeated_inject', RepeatedInject),
+                ('multi_disj_conj', MultiDisjConj),
+                ('in_expr_repeated', InExprRepeated),
+                ('union_named_positional', UnionNamedPositional)]
 
 
 # ---- C18: ordered / limited predicates in less common places ---------------------
